@@ -485,8 +485,8 @@ func (c *CollectionFeature) Clone() Feature {
 	return &CollectionFeature{
 		CollectionID: c.CollectionID,
 		Tags:         c.Tags.Clone(),
-		Keys:         c.Keys,
-		Values:       c.Values,
+		Keys:         slices.Clone(c.Keys),
+		Values:       slices.Clone(c.Values),
 		sorted:       c.sorted,
 	}
 }
